@@ -539,6 +539,11 @@ func (g *TG) objectCons(t *Ty) (string, *Ty) {
 func (g *TG) destructure(t *Ty) (string, *Ty) {
 	r := g.R
 	s := g.sub()
+	if r.Chance(1, 2) {
+		// the full pattern grammar (shared with the type-blind generator)
+		ng := &G{R: r, Depth: 1, Counter: g.Cnt}
+		return ng.altBind(), tyAny
+	}
 	switch t.K {
 	case KArr:
 		e := t.Elem
